@@ -129,6 +129,12 @@ def enum(mod, name, bits, variants, exh, repr_=None, family="ENUM", derives=None
     }
 
 
+def self_overlapping(f):
+    """does the range list of one element name a bit twice? (outside the C04 guarantee)"""
+    p = fpositions(f, 0)
+    return len(p) != len(set(p))
+
+
 def builder_expected(s):
     """oracle for C14: builder() exists iff no bit is writable twice and (default or full cover)"""
     seen = set()
@@ -286,7 +292,7 @@ def render_enum(e):
 
 
 def imports_of(decl):
-    imp = set()
+    imp = set(decl.get("imports", []))
     if decl["kind"] == "struct":
         if not is_native(decl["base"]):
             imp.add("u%d" % decl["base"])
@@ -301,6 +307,7 @@ class Crate:
         self.kind = kind
         self.mods = {}  # mod -> list of decls / raw items
         self.order = []
+        self.header = None
 
     def add(self, decl):
         m = decl["mod"]
@@ -311,7 +318,9 @@ class Crate:
 
     def render(self):
         out = []
-        if self.kind == "pos":
+        if self.header is not None:
+            out += list(self.header)
+        elif self.kind == "pos":
             out += ["#![no_std]", "#![deny(missing_docs)]", "#![allow(deprecated)]", "//! generated witness crate %s" % self.name, ""]
         else:
             out += ["#![no_std]", "#![allow(unused)]", "//! generated must-fail crate %s" % self.name, ""]
@@ -380,7 +389,7 @@ def add_const_witnesses(s, seed, maxn=2):
     rnd = random.Random(h("const", s["path"], seed))
     n = s["base"]
     raw = rnd.getrandbits(n) if n > 0 else 0
-    cands = [f for f in s["fields"] if f["ty"]["k"] in ("bool", "uint", "int")]
+    cands = [f for f in s["fields"] if f["ty"]["k"] in ("bool", "uint", "int") and not self_overlapping(f)]
     rnd.shuffle(cands)
     up = s["name"].upper()
     for f in cands[:maxn]:
@@ -971,6 +980,10 @@ def fam_build(tier, seed):
                                                       field("od", [(1, 1)], T_uint(1), array={"k": hlf, "stride": 2})], dflt)
                 # non-contiguous array whose elements overlap each other (stride smaller than span)
                 add("NcArrOvl%d%s" % (base, tag), base, [field("x", [(0, 0), (2, 2)], T_uint(2), array={"k": 2, "stride": 2})], dflt)
+                # a range list that names the same bits twice (accessors are outside C04; the builder must not exist)
+                add("SelfOvl%d%s" % (base, tag), base, [field("x", [(0, 3), (2, 5)], T_uint(8))], dflt)
+                add("SelfOvlB%d%s" % (base, tag), base, [field("x", [(1, 1), (1, 1)], T_uint(2)), field("y", [(4, 5)], T_uint(2))], dflt)
+                add("SelfOvlArr%d%s" % (base, tag), base, [field("x", [(0, 1), (1, 2)], T_uint(4), array={"k": 2, "stride": 4})], dflt)
     return out
 
 
